@@ -7,66 +7,66 @@ package stdlib_contracts
 
 //@ func (littleEndian).PutUint16
 //@ assumed
-//@ requires len(b) >= 2
+//@ requires[nopanic] len(b) >= 2
 //@ modifies b[0:2]
 //@ ensures b[0] + b[1]*256 == v
 
 //@ func (littleEndian).PutUint32
 //@ assumed
-//@ requires len(b) >= 4
+//@ requires[nopanic] len(b) >= 4
 //@ modifies b[0:4]
 //@ ensures b[0] + b[1]*256 + b[2]*65536 + b[3]*16777216 == v
 
 //@ func (littleEndian).PutUint64
 //@ assumed
-//@ requires len(b) >= 8
+//@ requires[nopanic] len(b) >= 8
 //@ modifies b[0:8]
 //@ ensures b[0] + b[1]*256 + b[2]*65536 + b[3]*16777216 + b[4]*4294967296 + b[5]*1099511627776 + b[6]*281474976710656 + b[7]*72057594037927936 == v
 
 //@ func (bigEndian).PutUint16
 //@ assumed
-//@ requires len(b) >= 2
+//@ requires[nopanic] len(b) >= 2
 //@ modifies b[0:2]
 //@ ensures b[1] + b[0]*256 == v
 
 //@ func (bigEndian).PutUint32
 //@ assumed
-//@ requires len(b) >= 4
+//@ requires[nopanic] len(b) >= 4
 //@ modifies b[0:4]
 //@ ensures b[3] + b[2]*256 + b[1]*65536 + b[0]*16777216 == v
 
 //@ func (littleEndian).Uint16
 //@ assumed
 //@ pure
-//@ requires len(b) >= 2
+//@ requires[nopanic] len(b) >= 2
 //@ ensures result == b[0] + b[1]*256
 
 //@ func (littleEndian).Uint32
 //@ assumed
 //@ pure
-//@ requires len(b) >= 4
+//@ requires[nopanic] len(b) >= 4
 //@ ensures result == b[0] + b[1]*256 + b[2]*65536 + b[3]*16777216
 
 //@ func (littleEndian).Uint64
 //@ assumed
 //@ pure
-//@ requires len(b) >= 8
+//@ requires[nopanic] len(b) >= 8
 //@ ensures result == b[0] + b[1]*256 + b[2]*65536 + b[3]*16777216 + b[4]*4294967296 + b[5]*1099511627776 + b[6]*281474976710656 + b[7]*72057594037927936
 
 //@ func (bigEndian).Uint16
 //@ assumed
 //@ pure
-//@ requires len(b) >= 2
+//@ requires[nopanic] len(b) >= 2
 //@ ensures result == b[1] + b[0]*256
 
 //@ func (bigEndian).Uint32
 //@ assumed
 //@ pure
-//@ requires len(b) >= 4
+//@ requires[nopanic] len(b) >= 4
 //@ ensures result == b[3] + b[2]*256 + b[1]*65536 + b[0]*16777216
 
 //@ func (bigEndian).Uint64
 //@ assumed
 //@ pure
-//@ requires len(b) >= 8
+//@ requires[nopanic] len(b) >= 8
 //@ ensures result == b[7] + b[6]*256 + b[5]*65536 + b[4]*16777216 + b[3]*4294967296 + b[2]*1099511627776 + b[1]*281474976710656 + b[0]*72057594037927936
